@@ -167,7 +167,7 @@ def edge_cover(edges, init, max_paths=None):
     return paths, len(all_edges), len(all_edges) - len(uncovered)
 
 
-STEP_LABELS = ("GCall", "MCCall", "GOp", "MCPoll", "MCUnpark", "MCOp")
+STEP_LABELS = ("GCall", "MCCall", "GOp", "MCPoll", "MCUnpark", "MCOp", "MCSlept")
 
 
 def schedules_of(paths):
@@ -226,7 +226,7 @@ def replay_cover(c, name, base, script_tla, mc_consts, scenario, trace_module, t
                     e = json.loads(line)
                     cur = (e["x"]["scn"], e["x"]["run"])
                     got[cur] = []
-                elif cur is not None and ('"k":"call"' in line or '"k":"op"' in line or '"k":"unpark"' in line):
+                elif cur is not None and ('"k":"call"' in line or '"k":"op"' in line or '"k":"unpark"' in line or '"k":"slept"' in line):
                     e = json.loads(line)
                     got[cur].append(e["t"])
         for key, sch in sched_of.items():
